@@ -24,6 +24,8 @@ REGISTRY = {
     "C09": ("harness.p_c09", 60, 300),
     "C08": ("harness.p_c08", 40, 200),
     "C25": ("harness.p_c25", 40, 240),
+    "C24": ("harness.p_c24", 30, 240),
+    "C23": ("harness.p_c23", 60, 300),
     "C19": ("harness.p_c19", 120, 1200),
     "C21": ("harness.p_vsa", 60, 300),
     "C22": ("harness.p_vsa", 60, 300),
